@@ -145,7 +145,7 @@ pub fn char_gt_eq(vm: &mut Vm) -> Result<VCell, Error> {
 }
 
 /// Fold the case of a character the way char-foldcase does.
-fn fold_case(c: &char) -> char {
+pub(crate) fn fold_case(c: &char) -> char {
     let mut lower = c.to_lowercase();
     match (lower.next(), lower.next()) {
         (Some(folded), None) => folded,
